@@ -28,6 +28,9 @@ func unmarshalFromJson(jsonSpecs []byte) ([]OperationSpec, error) {
 	var specSlice []OperationSpec
 
 	dec := json.NewDecoder(bytes.NewReader(jsonSpecs))
+	// The schema forbids additional properties, but it is applied to the decoded
+	// struct: reject unknown keys here, otherwise they are silently dropped.
+	dec.DisallowUnknownFields()
 	for {
 		var doc OperationSpec
 		err := dec.Decode(&doc)
@@ -48,6 +51,7 @@ func unmarshalFromYaml(yamlSpecs []byte) ([]OperationSpec, error) {
 	var specSlice []OperationSpec
 
 	dec := yaml.NewDecoder(bytes.NewReader(yamlSpecs))
+	dec.KnownFields(true)
 	for {
 		var doc OperationSpec
 		err := dec.Decode(&doc)
